@@ -37,10 +37,10 @@ func TestMain(m *testing.M) {
 
 type conf map[string]string
 
-func (c conf) GetString(key string) string             { return c[key] }
-func (c conf) GetBool(key string) bool                 { return false }
-func (c conf) GetInt(key string) int                   { return 0 }
-func (c conf) GetStringSlice(key string) []string      { return nil }
+func (c conf) GetString(key string) string              { return c[key] }
+func (c conf) GetBool(key string) bool                  { return false }
+func (c conf) GetInt(key string) int                    { return 0 }
+func (c conf) GetStringSlice(key string) []string       { return nil }
 func (c conf) SetDefault(key string, value interface{}) {}
 
 var storeKinds = []string{"leveldb", "leveldb2", "leveldb3"}
